@@ -13,6 +13,11 @@ var symBudget int // symbolic identifier characters still available on this path
 // attributes leaking between definitions, not about spellings).
 var symOn = true
 
+// Deep (thorough tier): the ordered-pair cases and the structural cases keep
+// their symbolic details (first definition of a pair), two identifier
+// characters may be symbolic, and every layout is tried on every case.
+var Deep bool
+
 // ident returns prefix, followed (budget permitting) by one symbolic
 // identifier character out of [a-z0-9_].
 func ident(prefix string) string {
@@ -305,8 +310,12 @@ func Case(i int) (defs []Def, docs bool) {
 	symOn = true
 	if i >= nSingles {
 		p := i - nSingles
+		symOn = Deep
+		a := byKind(p/nKinds, "Pa")
 		symOn = false
-		return []Def{byKind(p/nKinds, "Pa"), byKind(p%nKinds, "Qb")}, false
+		b := byKind(p%nKinds, "Qb")
+		symOn = Deep
+		return []Def{a, b}, false
 	}
 	if i >= 30 && i < 40 {
 		return deepTypeCase(i - 30), false
@@ -357,7 +366,7 @@ func Case(i int) (defs []Def, docs bool) {
 		return []Def{importDef("a.bop"), importDef("b/" + ident("c") + ".bop"), structPlain("S")}, false
 	case 27:
 		// four kinds in one file: structure matters here, spellings are covered by the single-kind cases
-		symOn = false
+		symOn = Deep
 		return []Def{structPlain("A"), messagePlain("B"), unionPlain("C"), enumPlain("D")}, false
 	case 28:
 		return []Def{constDef("go_package", "string", "\"github.com/x/y\""), structRO("S")}, false
@@ -431,7 +440,13 @@ func styleFor(docs bool, gaps int) *Style {
 		}
 		return s
 	}
-	switch vstub.Choose(0, 4) {
+	nstyles := 4
+	if Deep && !docs {
+		nstyles = 5
+	}
+	switch vstub.Choose(0, nstyles) {
+	case 5:
+		s.OneLine, s.Join = true, true
 	case 4:
 		s.DeprSame = docs
 		if !docs {
